@@ -166,7 +166,7 @@ def _madd(a, b):
 
 
 # registry of positive scale symbols and root symbols -> z3 constants and defining axioms
-SYM_AXIOMS: dict[str, list] = {}
+from .core import DEFS as SYM_AXIOMS  # shared registry of definitional symbols (cone-of-influence selection)
 
 
 def sym(name):
